@@ -27,7 +27,7 @@ class Node:
 
 class Pool:
     """accumulates the Python source of the generated classes"""
-    HEADER = ["from dataclasses import dataclass, field", "from typing import *", "from enum import Enum",
+    HEADER = ["from dataclasses import dataclass, field", "from typing import *", "from enum import Enum, IntEnum",
               "from apischema import alias, schema, dependent_required, properties", "from apischema.metadata import fall_back_on_default, flatten", "NoneType = type(None)",
               "from uuid import UUID", "from datetime import date", ""]
     def __init__(self): self.src = list(self.HEADER); self.n = 0
@@ -81,7 +81,12 @@ class Gen:
     def g_enum(self, d):
         n = self.pool.fresh("E")
         members = self.rnd.sample([("X", "x"), ("Y", 1), ("Z", "zz"), ("W", 2)], self.rnd.randint(1, 3))
-        decl = [f"class {n}(Enum):"] + [f"    {m} = {v!r}" for m, v in members]
+        base = "Enum"
+        if self.rnd.random() < 0.3:
+            # an Enum with a primitive mixin (`class Color(str, Enum)`, IntEnum): still an enum for (de)serialization
+            if self.rnd.random() < 0.5: base, members = "str, Enum", [("X", "x"), ("Z", "zz")][:self.rnd.randint(1, 2)]
+            else: base, members = self.rnd.choice(["int, Enum", "IntEnum"]), [("Y", 1), ("W", 2)][:self.rnd.randint(1, 2)]
+        decl = [f"class {n}({base}):"] + [f"    {m} = {v!r}" for m, v in members]
         self.pool.add(decl)
         return Node("enum", ["enum", n, [[m, lit_proto(v)] for m, v in members]], n, vals=[v for _, v in members], decl=decl)
     def _cons(self, kind, base_lean, base_py, choices):
@@ -175,6 +180,15 @@ class Gen:
             seen.add(t.py); ts.append(t)
         if len(ts) < 2: return self.g_optional(d)
         return Node("union", ["union", [t.lean for t in ts]], f"Union[{', '.join(t.py for t in ts)}]", ts)
+    def g_cunion(self, d):
+        """constraints attached to the union itself (they reach every alternative): Annotated[Union[int, str, ...], schema(min=0, max_len=3)]"""
+        alts = [self.g_int(0), self.g_str(0)] + ([Node("list", ["list", ["int"]], "List[int]", [self.g_int(0)])] if self.rnd.random() < 0.4 else [])
+        self.rnd.shuffle(alts)
+        u = Node("union", ["union", [t.lean for t in alts]], f"Union[{', '.join(t.py for t in alts)}]", alts)
+        cons = self.rnd.choice([({"min": ["i", "0"], "max_len": 3}, "min=0, max_len=3"), ({"max": ["i", "10"], "min_len": 1}, "max=10, min_len=1"),
+                                ({"exc_min": ["i", "0"], "max_items": 2}, "exc_min=0, max_items=2")])
+        n = Node("cunion", ["ann", cons[0], u.lean], f"Annotated[{u.py}, schema({cons[1]})]", [u], cons=("union", cons[1]))
+        return n
     def g_tuple_union(self, d):
         """union of fixed-length tuples told apart by their length, the longer one holding an element that needs conversion"""
         prim = [self.rnd.choice([self.g_int, self.g_str, self.g_bool])(0) for _ in range(self.rnd.randint(1, 2))]
@@ -320,18 +334,25 @@ class Gen:
         flattened dataclass: outside the Lean model (tag `aggregate`), inside the model-free checks"""
         n = self.pool.fresh("C"); variant = self.rnd.choice(["additional", "additional", "pattern", "flatten"])
         vt = self.rnd.choice([("Any", None), ("int", 3), ("str", "s")])
-        lines = ["@dataclass", f"class {n}:", "    a: int", "    b: Optional[str] = None"]
+        # the aggregate field without default (a required constructor argument), possibly with field-level fall_back_on_default
+        req = self.rnd.random() < 0.3
+        md_extra = " | fall_back_on_default" if self.rnd.random() < 0.3 else ""
+        head, tail = ["@dataclass", f"class {n}:", "    a: int"], ["    b: Optional[str] = None"]
+        pre = []
         extra = {}
         if variant == "additional":
-            lines.append(f"    extras: Dict[str, {vt[0]}] = field(default_factory=dict, metadata=properties)")
+            line = f"    extras: Dict[str, {vt[0]}] = field(" + ("" if req else "default_factory=dict, ") + f"metadata=properties{md_extra})"
             extra = {"kind": "additional", "value": vt}
         elif variant == "pattern":
-            lines.append(f"    pat: Dict[str, {vt[0]}] = field(default_factory=dict, metadata=properties(pattern=r'^p_'))")
+            line = f"    pat: Dict[str, {vt[0]}] = field(" + ("" if req else "default_factory=dict, ") + f"metadata=properties(pattern=r'^p_'){md_extra})"
             extra = {"kind": "pattern", "value": vt}
         else:
             inner = self.pool.fresh("I")
-            lines = ["@dataclass", f"class {inner}:", "    x: int = 0", "    y: Optional[str] = None", ""] + lines + [f"    inner: {inner} = field(default_factory={inner}, metadata=flatten)"]
+            pre = ["@dataclass", f"class {inner}:", "    x: int = 0", "    y: Optional[str] = None", ""]
+            line = f"    inner: {inner} = field(" + ("" if req else f"default_factory={inner}, ") + f"metadata=flatten{md_extra})"
             extra = {"kind": "flatten"}
+        extra["required"] = req; extra["fbod"] = bool(md_extra)
+        lines = pre + head + ([line] if req else []) + tail + ([] if req else [line])
         self.pool.add(lines)
         fs = [dict(name="a", alias="a", required=True, fbod=False, ty=self.g_int(0), dflt=None, dflt_src=None),
               dict(name="b", alias="b", required=False, fbod=False, ty=Node("optional", ["union", [["str"], ["none"]]], "Optional[str]", [self.g_str(0)]), dflt=["n"], dflt_src="None")]
@@ -417,11 +438,15 @@ class Gen:
         second = len(names) > 2 and self.rnd.random() < 0.5
         deps = "{" + f"{a}: [{b}]" + (f", {names[2]}: [{a}]" if second else "") + "}"
         lines.append(f"    dependencies = dependent_required({deps})")
+        # a second declaration for the same requiring field: the requirements accumulate
+        again = len(names) > 2 and not second and self.rnd.random() < 0.5
+        if again: lines.append(f"    more_dependencies = dependent_required({{{a}: [{names[2]}]}})")
         # `required_by` of a field: the external names of the fields that require it
         al = {f["name"]: f["alias"] for f in fs}
         for f in fs:
             if f["name"] == b: f["required_by"] = [al[a]]
             if second and f["name"] == a: f["required_by"] = [al[names[2]]]
+            if again and f["name"] == names[2]: f["required_by"] = [al[a]]
         self.pool.add(lines)
         node = self._obj_node("dataclass", n, fs, decl=lines)
         node.tags = ("depreq",)
@@ -466,6 +491,7 @@ class Gen:
         if k in ("mapping",):
             return {self.valid(t.kids[0]) if t.kids[0].kind == "literal" else r.choice(["k", "a", "ab", "zz"]): self.valid(t.kids[1], depth + 1) for _ in range(r.randint(0, 2))}
         if k == "cdict": return {r.choice(["k", "a", "zz"]): self.valid(t.kids[0], depth + 1) for _ in range(r.randint(0, 2))}
+        if k == "cunion": return self.valid(t.kids[0], depth)
         if k == "optional": return None if r.random() < 0.3 else self.valid(t.kids[0], depth + 1)
         if k == "union": return self.valid(r.choice(t.kids), depth + 1)
         if k == "newtype": return self.valid(t.kids[0], depth)
